@@ -936,6 +936,17 @@ def tales_details(repo, rep, rule="R04.2"):
     rep.check(okn, rule, te.qualname, "'No input' is raised exactly when "
               "nothing remains to be parsed", construct="no-input-guard",
               where=L.where(te))
+    # the escape of the pipe character: backslash + bar stands for a bar
+    reps = [c for c in ast.walk(te.node) if isinstance(c, ast.Call)
+            and isinstance(c.func, ast.Attribute)
+            and c.func.attr == "replace" and len(c.args) == 2
+            and all(isinstance(a, ast.Constant) for a in c.args)
+            and "|" in str(c.args[0].value) + str(c.args[1].value)]
+    rep.check(bool(reps) and all(c.args[0].value == "\\|" and
+                                 c.args[1].value == "|" for c in reps),
+              rule, te.qualname, "'\\|' in an alternative is un-escaped "
+              "to '|'", construct="pipe-unescape", where=L.where(te),
+              detail=str([src(c) for c in reps]))
     # slices by start/end of one group
     n_sl = 0
     bad = []
